@@ -502,6 +502,12 @@ func fallbackCase(c *Case, lean *LeanDriver) Verdict {
 			v.Other = "native query differs with fallback on/off: " + df
 			return v
 		}
+		// accepted natively, then failing with an internal error where the reference answers:
+		// the construct was not supported after all ("never degrade")
+		if withFB.Kind == "err" && prom.Kind != "err" && strings.Contains(withFB.Err, "unexpected error") {
+			v.Other = "natively accepted query fails with an internal error where the reference engine answers: " + withFB.Err
+			return v
+		}
 	} else {
 		if ErrClass(noFB.Err) != "unsupported" {
 			v.Other = "fallback disabled: creation error does not identify itself as unsupported: " + noFB.Err
@@ -521,6 +527,7 @@ func fallbackCase(c *Case, lean *LeanDriver) Verdict {
 			return v
 		}
 	}
+	v.Features = append(v.Features, "model-native:"+modelNative)
 	if modelNative != "" && modelNative != "bad-op" {
 		if (modelNative == "1") != native {
 			v.EngVsModel = fmt.Sprintf("model says native=%s, engine native=%v", modelNative, native)
